@@ -263,8 +263,18 @@ def ref_match(p, v, t):
         # an un-delimited sequence pattern hands the declared type to its items
         if si:
             s = si[0]; after = kk - s - 1
-            if n < kk - 1: return [(T, None)]
-            pairs = [(items[i], v[1][i]) for i in range(s)] + [(items[s][1], ('list', v[1][s:n - after]))] + [(items[s + 1 + j], v[1][n - after + j]) for j in range(after)]
+            ndef = 0
+            for it in reversed(items):
+                if it[0] == 'default': ndef += 1
+                else: break
+            if n < kk - 1:
+                # too few values for the non-splat items: trailing defaults fill the missing ones, the splat is empty
+                missing = kk - 1 - n
+                if missing > ndef: return [(T, None)]
+                nonsplat = [it for i, it in enumerate(items) if i != s]
+                pairs = [(nonsplat[i], v[1][i]) for i in range(n)] + [(nonsplat[i], nonsplat[i][2]) for i in range(n, kk - 1)] + [(items[s][1], ('list', []))]
+            else:
+                pairs = [(items[i], v[1][i]) for i in range(s)] + [(items[s][1], ('list', v[1][s:n - after]))] + [(items[s + 1 + j], v[1][n - after + j]) for j in range(after)]
         else:
             ndef = 0
             for it in reversed(items):
@@ -366,6 +376,9 @@ def pattern_family(tier, rnd):
     d = ('num', z3.RealVal(7), z3.IntVal(7))
     for n in range(0, 4):
         fam += [(('seq', [('id', 'a'), ('default', ('id', 'b'), d)]), vals[n]), (('seq', [('default', ('id', 'a'), d), ('default', ('id', 'b'), d)]), vals[n])]
+    # a splat together with trailing defaults
+    for n in range(0, 4):
+        fam += [(('seq', [('splat', ('id', 'b')), ('default', ('id', 'c'), d)]), vals[n]), (('seq', [('id', 'a'), ('splat', ('id', 'b')), ('default', ('id', 'c'), d)]), vals[n])]
     return fam
 
 def shape_pattern(item, ob):
@@ -396,7 +409,12 @@ def shape_pattern(item, ob):
     outcomes = ref_match(p, v, 'Any')
     names = names_of(p)
     def replay(model):
-        sp = src_pat(p, model)
+        lam = None
+        if p[0] == 'seq' and any(it[0] == 'default' for it in p[1]) and v[0] == 'list' and all(it[0] in ('id', 'splat', 'default') for it in p[1]):
+            # defaults exist only in parameter lists: replay as a lambda applied to the list's elements
+            def par(it): return it[1] if it[0] == 'id' else '...' + it[1][1] if it[0] == 'splat' else f'{it[1][1]} = {src_val(it[2], model)}'
+            lam = '\\' + ', '.join(par(it) for it in p[1])
+        sp = src_pat(p, model) if lam is None else lam
         if sp is None or 'None' in sp: return None
         exp = None
         for c, b in outcomes:
@@ -411,6 +429,8 @@ def shape_pattern(item, ob):
                 if val[0] == 'null': return 'null'
                 return '[' + ', '.join(rv(x) for x in val[1]) + ']'
             want = 'OK [' + ', '.join(rv(last[n_]) for n_ in names) + ']'
+        if lam is not None:
+            return {'program': f'try (({lam} -> [{", ".join(names)}])({", ".join(src_val(x, model) for x in v[1])})) catch e -> "nomatch"', 'expect': {'equals': want}}
         return {'program': f'try (switch ({src_val(v, model)}) case {sp} -> [{", ".join(names)}] case _ -> "nomatch") catch e -> "nomatch"', 'expect': {'equals': want}}
     pref = [[z3.And(*[z3.And(s >= 0, s <= 9) for _, s in syms])]] if syms else ()
     for pc, kd, res, lg in E.explore(run):
@@ -456,9 +476,60 @@ def show_pat(p):
     if k == 'neg': return f'-{show_pat(p[1])}'
 def show_val(v): return str(v[2]) if v[0] == 'num' else 'null' if v[0] == 'null' else '[' + ', '.join(show_val(x) for x in v[1]) + ']'
 
+# ------------------------------------------------------------------------------------------------ (S) later assignments to an annotated variable
+def kind_of(o):
+    """BASE type name of a result Obj"""
+    if o.variant == 'Null': return 'Null'
+    if o.variant == 'Num': return {'Int': 'Int', 'Rational': 'Rational', 'Float': 'Float', 'Complex': 'Complex'}[o.fields[0].variant]
+    if o.variant == 'Seq': return {'List': 'List', 'String': 'String', 'Dict': 'Dict', 'Vector': 'Vector', 'Bytes': 'Bytes', 'Stream': 'Stream'}[o.fields[0].variant]
+    if o.variant == 'Func': return 'Type' if o.fields[0].variant == 'Type' else 'Func'
+    return 'StructInstance'
+def accepts(t, base): return t == 'Any' or t == base or (t == 'Number' and base in ('Int', 'Rational', 'Float', 'Complex')) or (t == 'Func' and base == 'Type')
+TYPED_STMTS = {
+    'Int': ['x = y', 'x = [y]', 'x = null', 'x = z', 'x += y', 'x -= y', 'x, z = z, x', 'swap x, z', 'x, w = [y, 2]', 'x, w = [[y], 2]', 'every x, w = y', 'every x, w = [y]', 'x = (x = [1]; 5)'],
+    'List': ['x = y', 'x = [y]', 'x = null', 'x = z', 'x[0] = y', 'x[0] = [y]', 'x[y] = 1', 'every x[0:2] -= y', 'every x[0:2] = null', 'x append= y', 'x, z = z, x', 'swap x, z', 'swap x[0], z', 'pop x'],          # (`consume x` leaves null by definition and is not in the property's list)
+    'Stream': ['x = y', 'x = [y]', 'x = z', 'x[0] = y', 'every x[0:2] -= y', 'every x[0:2] = 7', 'x, z = z, x', 'swap x, z'],
+    'Number': ['x = y', 'x = [y]', 'x = null', 'x += y', 'x, z = z, x'],
+}
+def shape_typed(item, ob):
+    """a statement that assigns to a variable declared with a type, in the real evaluator and a real Env: when it completes without raising, the variable still holds a value of its type"""
+    from props import evalh
+    tname, si, zkind = item
+    stmt = TYPED_STMTS[tname][si]; text = stmt + '; 0'
+    E = evalh.eng(MIR); ast, = evalh.parse_programs([text]); Yv = z3.Int('y')
+    def val(kind):
+        if kind == 'Int': return evalh.num(z3.IntVal(3))
+        if kind == 'List': return evalh.olist([evalh.num(z3.IntVal(1)), evalh.num(z3.IntVal(2))])
+        if kind == 'Null': return Adt('Obj', 'Null', [])
+        if kind == 'Stream': return Adt('Obj', 'Seq', [Adt('Seq', 'Stream', [RcV(RcObj(Adt('WrappedVec', None, [RcV(RcObj(Seq([evalh.num(z3.IntVal(1)), evalh.num(z3.IntVal(2)), evalh.num(z3.IntVal(3))]))), z3.IntVal(0)])))])])
+    x0 = {'Int': 'Int', 'List': 'List', 'Stream': 'Stream', 'Number': 'Int'}[tname]
+    holder = {}
+    def run():
+        E.assume(in_i64(Yv))
+        env = evalh.top_env({'x': (otype(tname), val(x0)), 'y': evalh.num(Yv), 'z': val(zkind), 'w': evalh.num(z3.IntVal(0))},
+                            builtins=('+', '-', '*', '<', '>', '==', 'append'))
+        holder['env'] = env
+        r = evalh.run_program(E, ast, env)
+        return r, evalh.get_var(env, 'x')
+    lits = {'Int': '3', 'List': '[1, 2]', 'Null': 'null', 'Stream': 'stream([1, 2, 3])'}
+    def replay(model):
+        y = mval(model, Yv)
+        return {'program': f'x: {TNAME[tname]} = {lits[x0]}; y := {fmt_int(y)}; z := {lits[zkind]}; w := 0; ok := try ({stmt}; 1) catch e__ -> 0; (ok == 0) or (x is {TNAME[tname]})', 'expect': {'equals': 'OK 1'}}
+    for pc, kd, res, lg in E.explore(run, max_paths=300):
+        ob.paths += 1; name = f'{TNAME[tname]}-typed x (z: {zkind}): {stmt}'; pref = [[z3.And(Yv >= 0, Yv <= 3)]]
+        if kd == 'panic': ob.panic(name + ' panic-free', pc, res, replay=replay, cls='C12/typed statement/panic', prefer=pref); continue
+        if kd != 'ok': ob.missing(name, f'{kd}: {res}'); continue
+        r, xv = res
+        if r.variant == 'Ok':
+            goal = z3.BoolVal(xv is not None and xv[0].variant == tname and accepts(tname, kind_of(xv[1])))
+        else: goal = z3.BoolVal(True)
+        ob.check(name + ' keeps `x is T` when it completes', pc, goal, replay=replay, cls='C12/typed statement/annotation', prefer=pref,
+                 sample='after a statement that completes without raising, the annotated variable holds a value of its declared type'); ob.witness(r.variant)
+    ob.absorb_engine(E)
+
 def run_shape(item, ob):
     fam, payload = item
-    {'istype': shape_istype, 'convert': shape_convert, 'dnum': shape_destructure_num, 'dseq': shape_destructure_seq, 'pattern': shape_pattern}[fam](payload, ob)
+    {'istype': shape_istype, 'convert': shape_convert, 'dnum': shape_destructure_num, 'dseq': shape_destructure_seq, 'pattern': shape_pattern, 'typed': shape_typed}[fam](payload, ob)
 
 def main(tier, seed, t0):
     global MIR
@@ -481,6 +552,11 @@ def main(tier, seed, t0):
         for n in range(0, 4): items.append(('dseq', (struct, n)))
     nfam = len(pattern_family(tier, rnd))
     for i in range(nfam): items.append(('pattern', (i,)))
+    from props import evalh
+    evalh.parse_programs([s + '; 0' for ss in TYPED_STMTS.values() for s in ss])          # one native call for all parse trees
+    for tname, stmts in TYPED_STMTS.items():
+        for si in range(len(stmts)):
+            for zk in (('Int', 'List') if tier == 'quick' else ('Int', 'List', 'Null', 'Stream')): items.append(('typed', (tname, si, zk)))
     merged, per = pmap(run_shape, items, tier)
     return finish(PROP, tier, seed, merged, t0, th=th,
         kernels=['eval.rs: is_type, assign, assign_all, assign_all_basic, insert_declare', 'core.rs: type_of, call_type1 (numeric arms), to_type, Obj equality',
